@@ -339,6 +339,80 @@ def rule_pattern_args(ctx, rep, rule_id="R-PATTERN-ARGS", families=(1, 2)):
                 break
 
 
+PATTERN_FLAGS = {"--path-include", "--path-exclude"}
+# string methods that rewrite a pattern (after them it is no longer the pattern the user wrote)
+REWRITES = {"strip", "lstrip", "rstrip", "removeprefix", "removesuffix", "replace", "lower", "upper", "casefold", "title", "translate",
+            "swapcase", "capitalize", "expandtabs", "normpath", "normcase", "expanduser", "expandvars", "abspath", "realpath", "resolve"}
+
+
+def rule_pattern_verbatim(ctx, rep, rule_id="R-PATTERN-VERBATIM"):
+    rep.rule(
+        rule_id,
+        "a --path-include / --path-exclude pattern reaches the glob matcher as the user wrote it: the argparse action bound to the two flags "
+        "and every function that takes the patterns (parameters named *include*/*exclude* of the path family) apply no string-rewriting "
+        "method (strip/lstrip('./')/replace/lower/normpath ...) to a pattern; the `:line` suffix is handled by R-LINE-SUFFIX.  "
+        "`'.venv/**'.lstrip('./')` is `'venv/**'`: excluded dot-directories get rewritten, their non-dot siblings are skipped",
+        min_instances=3,
+    )
+    pa = ctx.prog.func("codemodder.cli.parse_args")
+    mod = pa.module
+    n = 0
+    actions = {}
+    for c in walk_no_nested(pa.node):
+        if isinstance(c, ast.Call) and last_attr(c.func) == "add_argument" and c.args and isinstance(c.args[0], ast.Constant) and c.args[0].value in PATTERN_FLAGS:
+            act = next((k.value for k in c.keywords if k.arg == "action"), None)
+            q = ctx.prog.resolve_expr_name(mod, act) if act is not None and not isinstance(act, ast.Constant) else None
+            if q is None or q not in ctx.prog.classes:
+                raise AnalysisError(f"parse_args: the action of {c.args[0].value} is not a class of the repository ({unparse(act) if act is not None else 'none'})")
+            actions[c.args[0].value] = q
+    if set(actions) != PATTERN_FLAGS:
+        raise AnalysisError(f"parse_args: flags {sorted(PATTERN_FLAGS - set(actions))} not found")
+    scanned: list[FuncInfo] = []
+    for flag, q in sorted(actions.items()):
+        for ci in ctx.prog.mro_classes(q):
+            for m in ci.methods.values():
+                if m not in scanned:
+                    scanned.append(m)
+    fam = ROLE_FAMILIES[1]
+    for fn in ctx.prog.live_functions():
+        if set(fn.params()) & fam and fn not in scanned:
+            scanned.append(fn)
+    for fn in scanned:
+        in_action = fn.cls is not None and any(fn.cls.qname in ctx.prog.mro(q) for q in actions.values())
+        tainted = set(fn.params()) - {"self", "cls", "parser", "namespace", "option_string"} if in_action else (set(fn.params()) & fam)
+        # names bound from tainted values (comprehension / loop variables, simple assignments), to a fixpoint
+        changed = True
+        while changed:
+            changed = False
+            for x in ast.walk(fn.node):
+                src, tgt = None, None
+                if isinstance(x, ast.comprehension):
+                    src, tgt = x.iter, x.target
+                elif isinstance(x, ast.For):
+                    src, tgt = x.iter, x.target
+                elif isinstance(x, ast.Assign) and len(x.targets) == 1:
+                    src, tgt = x.value, x.targets[0]
+                elif isinstance(x, ast.NamedExpr):
+                    src, tgt = x.value, x.target
+                if src is not None and names_in(src) & tainted:
+                    for t in ast.walk(tgt):
+                        if isinstance(t, ast.Name) and t.id not in tainted:
+                            tainted.add(t.id)
+                            changed = True
+        bad = None
+        for c in ast.walk(fn.node):
+            if isinstance(c, ast.Call) and isinstance(c.func, ast.Attribute) and c.func.attr in REWRITES and names_in(c.func.value) & tainted:
+                bad = c
+            elif isinstance(c, ast.Call) and isinstance(c.func, ast.Attribute) and c.func.attr in REWRITES and unparse(c.func).startswith(("os.path.", "posixpath.", "path.")) \
+                    and any(names_in(a) & tainted for a in c.args):
+                bad = c  # os.path.normpath(pattern) and the like
+        n += 1
+        rep.check(rule_id, fn.qname, fn.loc(bad) if bad is not None else fn.loc(), bad is None, "rewrite",
+                  f"`{unparse(bad)[:70]}` rewrites a path pattern before it is matched: the files selected are no longer the ones the user's pattern names" if bad is not None else "")
+    if n < 3:
+        raise AnalysisError(f"only {n} functions handle path patterns")
+
+
 def check(ctx, rep):
     rep.explanation = (
         "File selection is followed from the CLI patterns through context.find_and_fix_paths / filter_paths into "
@@ -351,6 +425,11 @@ def check(ctx, rep):
     rule_line_suffix(ctx, rep)
     rule_pattern_args(ctx, rep)
     rule_glob_only(ctx, rep)
+    rule_pattern_verbatim(ctx, rep)
+    from .c12 import rule_merge_op
+
+    # findings lost while result sets are combined = selected files with a fixable construct that are never fixed
+    rule_merge_op(ctx, rep)
     from .c18 import rule_scan_targets
 
     rule_scan_targets(ctx, rep)
